@@ -117,7 +117,7 @@ int main(int argc, char **argv)
         while (j < n && strncmp(lines[j], "history", 7) != 0) j++;
         fflush(stdout);
         pid_t pid = fork();
-        if (pid == 0) { run_history(dir, lines + i, lnos + i, j - i); fflush(stdout); _exit(0); }
+        if (pid == 0) { alarm(20); run_history(dir, lines + i, lnos + i, j - i); fflush(stdout); _exit(0); }   /* a history that spins (e.g. an enumeration that never ends) is killed: reported as a crash */
         int st = 0;
         waitpid(pid, &st, 0);
         if (!(WIFEXITED(st) && WEXITSTATUS(st) == 0)) {
